@@ -84,6 +84,7 @@ fn hostile_scripts(rng: &mut Rng, nh: usize) -> Vec<Script> {
                 no_event: rng.chance(1, 12),
                 tolerant: rng.chance(1, 4),
                 fail_before_pulls: rng.bool(),
+                meta_hint: rng.usize(4) as u8,
             }
         })
         .collect()
